@@ -659,7 +659,9 @@ CLAIM = {
             "indicators (sma, wma, var, stddev, bollinger bands, donchian, willr, mom, roc, mfi, obv step, typ/med/avg/wcl price, trange, "
             "midpoint, midprice, cci, stochf %K/%D) must equal their textbook definitions as symbolic identities; keltner must be the repository's ema +- multiplier * atr; dema / tema must satisfy their seed-independent filter recurrences and macd signal/hist their defining relations; ema / smma / wilders / atr must satisfy their "
             "recurrence step and rsi Wilder's definition; ma() must return for each of its ~30 matypes exactly the series the selected "
-            "moving average returns. Identities hold for all input values at the analysed length/period. Not decided: ranges, orderings, "
+            "moving average returns, also as a single value on an input longer than the warm-up window. Wilder's directional system (dm, di) "
+            "is compared with its definition by evaluating the extracted expressions on six valuations (values inside [0, 100]); choosing a "
+            "recursive matype must not turn a series into NaN. Identities hold for all input values at the analysed length/period. Not decided: ranges, orderings, "
             "homogeneity, seed-decay agreement, indicators outside the table.",
     "note": "Trusted: numpy model of the interpreter; reference definitions in props/c15.py; fixed small length and periods.",
 }
